@@ -154,6 +154,8 @@ impl FilterProtocol {
         {
             debug!("found best proved peer {}", peer);
 
+            #[cfg(nervosnetwork_ckb_light_client_verif)]
+            crate::verif_hooks::lock_event("filter_timer");
             let mut matched_blocks = self.peers.matched_blocks().write().expect("poisoned");
             if let Some((db_start_number, blocks_count, db_blocks)) =
                 self.storage.get_earliest_matched_blocks()
